@@ -272,5 +272,7 @@ def run(chk, F):
     chk.run_rule("C08.no-lost-error", "every Result in the serializer is propagated; the zstd stream is finished explicitly; lengths come from the tracking writer", 8, no_lost_error, F)
     chk.run_rule("C08.tracked-writer", "the length-tracking writer forwards each Write method like-for-like and counts accepted bytes on success only", 6, tracked_writer, F)
     chk.run_rule("C08.reject-whole", "an entry is recorded only after a successful serialization and within max_entry_size; push_slice tests sizes before copying", 5, reject_whole, F)
+    from rules import C09
+    chk.run_rule("C08.size-limit-siblings", "push and push_slice agree on the max_entry_size comparison", 1, C09.size_limit_siblings, F)
     chk.run_rule("C08.header-lengths", "the header records the serializer's lengths, the payload checksum and the caller's hash/sequence/tag; entry len = header + key + value", 7, header_lengths, F)
     chk.run_rule("C08.size-limit", "a WriteZero io error becomes ErrorKind::BufferSizeLimit", 1, size_limit, F)
